@@ -20,6 +20,7 @@ type Case struct {
 	Origin   string      `json:"origin"`
 	Typing   *Typing     `json:"typing,omitempty"` // per-leaf Go types (typed.go); compared with the generic model only
 	Fuzz     *FuzzCase   `json:"fuzz,omitempty"`   // a (previous value, delta) pair for the two merges (fuzz.go); Old/New unused
+	Probe    string      `json:"probe,omitempty"`  // "bytes-key": objects keyed by a []byte value (not expressible in JSON)
 }
 
 var fieldNames = []string{"a", "b", "c", "d", "$", "0", "1", "id"}
